@@ -17,6 +17,34 @@ type c09Case struct {
 	First int      `json:"first"` // index of the first event (shards the tree); -1 = path replay
 	Depth int      `json:"depth"`
 	Path  []c08Ev  `json:"path,omitempty"`
+	Pre   int      `json:"pre,omitempty"` // index of the history prefix run before the enumeration (non-initial start states)
+}
+
+// c09Prefixes are histories that leave the controller in a non-initial state: data in several
+// banks, RAM disabled again, bank/mode registers changed while disabled.
+func c09Prefix(k ref.CartKind, i int) []c08Ev {
+	sel := uint16(0x4000)
+	switch i {
+	case 1:
+		// enable, store distinct bytes in three banks (mode 1 for MBC1), then disable
+		p := []c08Ev{{0x0000, 0x0a}}
+		if k == ref.KMBC1 {
+			p = append(p, c08Ev{0x6000, 1})
+		}
+		for b := uint8(0); b < 3; b++ {
+			p = append(p, c08Ev{sel, b}, c08Ev{0xa000, 0x11 * (b + 1)}, c08Ev{0xbfff, 0x21 + b})
+		}
+		return append(p, c08Ev{0x0000, 0x00})
+	case 2:
+		// as 1, then change the bank (and for MBC1 the mode) while disabled
+		p := c09Prefix(k, 1)
+		p = append(p, c08Ev{sel, 1})
+		if k == ref.KMBC1 {
+			p = append(p, c08Ev{0x6000, 0}, c08Ev{0x6000, 1})
+		}
+		return p
+	}
+	return nil
 }
 
 func c09Alphabet(k ref.CartKind, banks int) []c08Ev {
@@ -104,6 +132,12 @@ func c09Check(l *explore.Local, _ struct{}, c c09Case) *explore.Fail {
 	if f := p.checkRAMWindow("power-on"); f != nil {
 		return f
 	}
+	for _, ev := range c09Prefix(p.mod.Kind, c.Pre) {
+		if f := p.c09Apply(ev); f != nil {
+			f.Msg += " [in the history prefix]"
+			return f
+		}
+	}
 	if c.First < 0 {
 		for _, ev := range c.Path {
 			if f := p.c09Apply(ev); f != nil {
@@ -116,7 +150,7 @@ func c09Check(l *explore.Local, _ struct{}, c c09Case) *explore.Fail {
 	path := []c08Ev{}
 	var fail *explore.Fail
 	mk := func(f *explore.Fail) {
-		f.Case = c09Case{Cart: c.Cart, First: -1, Path: append([]c08Ev(nil), path...)}
+		f.Case = c09Case{Cart: c.Cart, First: -1, Path: append([]c08Ev(nil), path...), Pre: c.Pre}
 		fail = f
 	}
 	var dfs func(depth int)
@@ -179,7 +213,7 @@ func init() {
 				d := depth
 				if ram == 4 || ram == 5 {
 					d = depth - 1 // large RAM: snapshot cost; the bank arithmetic is also covered by ram=3
-					if ram == 4 && typ == 0x1b {
+					if ram == 4 && typ == 0x1b && c.Thorough() {
 						d = depth // MBC5 is the controller with 16 banks
 					}
 				}
@@ -190,14 +224,26 @@ func init() {
 			job{cartSpec{0x05, 1, 0}, depth}, job{cartSpec{0x06, 0, 0}, depth}, job{cartSpec{0x00, 0, 0}, 2}, job{cartSpec{0x00, 0, 2}, 2})
 		explore.Product(c.R, "ram-event-sequences", explore.PartOpt{
 			Bound:  fmt.Sprintf("every sequence up to depth %d (%d for the 64/128 KiB configurations)", depth, depth-1),
-			Domain: "MBC1/MBC3/MBC5 x RAM codes {0,2,3,4,5}, MBC1 large ROM, MBC3+RTC type, MBC5 rumble type, MBC2 (two types), ROM-only"},
+			Domain: "MBC1/MBC3/MBC5 x RAM codes {0,2,3,4,5}, MBC1 large ROM, MBC3+RTC type, MBC5 rumble type, MBC2 (two types), ROM-only; from power-on and from two non-initial histories (data in three banks then disabled; bank/mode changed while disabled)"},
 			func(yield func(c09Case) bool) {
 				for _, j := range jobs {
 					k, _ := ref.KindOf(j.spec.Type)
 					n := len(c09Alphabet(k, 0))
-					for i := 0; i < n; i++ {
-						if !yield(c09Case{Cart: j.spec, First: i, Depth: j.depth}) {
-							return
+					for pre := 0; pre < 3; pre++ {
+						if pre > 0 && (k == ref.KNone || k == ref.KMBC2 || j.spec.RAMCode < 3 || (j.spec.RAMCode > 3 && !(k == ref.KMBC5 && j.spec.RAMCode == 4))) {
+							continue // the histories only matter with several banks; large configurations are covered by MBC5/128 KiB
+						}
+						d := j.depth
+						if pre > 0 && d > 3 {
+							d = 3
+						}
+						if pre > 0 && j.spec.RAMCode == 4 && !c.Thorough() {
+							d = 2
+						}
+						for i := 0; i < n; i++ {
+							if !yield(c09Case{Cart: j.spec, First: i, Depth: d, Pre: pre}) {
+								return
+							}
 						}
 					}
 				}
